@@ -113,7 +113,17 @@ class Tm:
 
     @staticmethod
     def coq_case(case, obs):
-        return "{| c_str := %s; c_obs1 := %s; c_obs2 := %s |}" % (cstr(case["s"]), _tobs(obs["a"]), _tobs(obs["b"]))
+        return "{| c_str := %s; c_valid := %s; c_obs1 := %s; c_obs2 := %s |}" % (cstr(case["s"]), cbool(Tm.valid_tm(case["s"])), _tobs(obs["a"]), _tobs(obs["b"]))
+
+    @staticmethod
+    def valid_tm(s):
+        m = Tm._rx.match(s)
+        if not m:
+            return False
+        hh, mm, ss, ff = m.groups()
+        if ":" in s and s.count(":") != (2 if ss is not None else 1 if mm is not None else 0):
+            return False
+        return not (int(hh) > 23 or (mm and int(mm) > 59) or (ss and int(ss) > 60))
 
     _rx = re.compile(r"^(\d\d)(?::?(\d\d)(?::?(\d\d)(?:\.(\d{1,6}))?)?)?$")
 
